@@ -772,11 +772,11 @@ class World:
 
         # identity of what was returned: the same operator object (or the same tensor storage) handed out for two requests.
         # Bitwise-equal but distinct objects are legitimate (e.g. an eigen-based root computed twice from the same spectrum).
-        hd = frozenset(id(o_) for o_ in hres.ops)
-        fd = tuple(tensor_sha(t) for t in fres.tensors)
-        if not hd:
+        if hres.raw is None:
             return
-        self._keepalive.extend(hres.ops)  # ids must not be recycled while they are in the log
+        hd = frozenset([id(hres.raw)])
+        fd = tuple(tensor_sha(t) for t in fres.tensors)
+        self._keepalive.append(hres.raw)  # ids must not be recycled while they are in the log
         cur = (qname, akey(args), hd, fd, json.dumps(_settings_key()), label)
         log_ = self.qlog.setdefault(rec.oid, [])
         for prev in log_:
